@@ -181,13 +181,25 @@ let promise_case (toks : string list) : string =
       match o.[0] with
       | 'N' -> M.PNew
       | 'T' -> (match String.split_on_char ':' body with
-          | [ src; vo; ts ] -> M.PThen (nat_of_int (int_of_string src), vo = "v", (if ts = "t" then M.HThrow else M.HSwallow))
+          | [ src; vo; ts ] ->
+            let h = if ts = "t" then M.HThrow else M.HSwallow and src = nat_of_int (int_of_string src) in
+            (match vo with
+             | "p" -> M.PThenP (src, M.MPending, h)
+             | "q" -> M.PThenP (src, M.MResolved, h)
+             | "r" -> M.PThenP (src, M.MRejected, h)
+             | _ -> M.PThen (src, vo = "v", h))
+          | _ -> M.PNew)
+      | 'M' -> M.PNew
+      | 'Q' -> M.PResolveV (nat_of_int (int_of_string body))
+      | 'I' -> (match String.split_on_char ':' (String.sub body 1 (String.length body - 1)) with
+          | [ k; v ] -> M.PInner (nat_of_int (int_of_string k), body.[0] = 'R', n_of_int (int_of_string v))
           | _ -> M.PNew)
       | 'R' -> (match String.split_on_char ':' body with [ p; v ] -> M.PResolve (nat_of_int (int_of_string p), n_of_int (int_of_string v)) | _ -> M.PNew)
       | 'J' -> (match String.split_on_char ':' body with [ p; v ] -> M.PReject (nat_of_int (int_of_string p), n_of_int (int_of_string v)) | _ -> M.PNew)
       | 'A' | 'V' -> M.PAll (List.map (fun x -> nat_of_int (int_of_string x)) (String.split_on_char ',' body))
       | _ -> M.PAny (List.map (fun x -> nat_of_int (int_of_string x)) (String.split_on_char ',' body)) in
-    let st = M.run_prog (List.map parse ops) in
+    (* X<p> (the program drops its handles to promise p) has no counterpart in the model, which has no lifetimes *)
+    let st = M.run_prog (List.map parse (List.filter (fun o -> o.[0] <> 'X') ops)) in
     let ev = function
       | M.ERes (k, v) -> Printf.sprintf " %dR%s" (int_of_nat k) (String.concat "." (List.map (fun x -> string_of_int (int_of_n x)) v))
       | M.ERej (k, e) -> Printf.sprintf " %dJ%d" (int_of_nat k) (int_of_n e)
@@ -444,26 +456,42 @@ let lifecycle_case (toks : string list) : string =
         | _ -> [])
       else (match b with
         | "c" -> [ M.EAccept f; M.EEof f ]
-        | "f" | "k" | "h" | "z" -> [ M.EAccept f; M.EData f; M.EEof f ]
+        | "f" | "k" | "h" | "z" | "s" | "S" | "t" -> [ M.EAccept f; M.EData f; M.EEof f ]
         | "d" | "b" -> [ M.EAccept f; M.EData f; M.EEof f ]
         | "r" -> [ M.EAccept f; M.EData f; M.EErr0 f ]
         | "i" -> [ M.EAccept f; M.EIdle f ]
         | "j" | "m" -> [ M.EAccept f; M.EData f; M.EIdle f ]
         | "w" -> [ M.EAccept f; M.EData f; M.EWriteFail f; M.EErr0 f ]   (* the 408 never gets written: no idle close *)
         | _ -> []) in
-    let request_seen b = List.mem b [ "f"; "k"; "h"; "r"; "m"; "w"; "z" ] in
+    let request_seen b = List.mem b [ "f"; "k"; "h"; "r"; "m"; "w"; "z"; "s"; "S"; "t" ] in
     (* interleave the connections of one round event by event *)
     let rec interleave (ls : M.ev0 list list) : M.ev0 list =
       let heads = List.filter_map (function [] -> None | x :: _ -> Some x) ls in
       if heads = [] then [] else heads @ interleave (List.map (function [] -> [] | _ :: r -> r) ls) in
-    let evs = List.concat (List.init rounds (fun _ -> interleave (List.mapi (fun i b -> conn_events (i + 10) b) bs))) in
+    (* after every round: min(width, 8) fresh connections, one request each *)
+    let nprobe = min width 8 in
+    let probes = List.init nprobe (fun _ -> "f") in
+    let evs = List.concat (List.init rounds (fun _ ->
+        interleave (List.mapi (fun i b -> conn_events (i + 10) b) bs)
+        @ interleave (List.mapi (fun i b -> conn_events (i + 10) b) probes))) in
     let st = M.lrun evs in
+    (* the write queues: behaviours that leave an answer unsent when the connection ends *)
+    let unsent b = if mode = "T" then b = "p" else List.mem b [ "z"; "w"; "s" ] in
+    let answered b = if mode = "T" then List.mem b [ "d"; "f"; "h"; "r" ] else List.mem b [ "f"; "k"; "h"; "r"; "m"; "S"; "t"; "i"; "j" ] in
+    let qconn fd b =
+      let f = nat_of_int fd in
+      [ M.QAccept f ] @ (if unsent b then [ M.QQueue f ] else if answered b then [ M.QQueue f; M.QFlush f ] else []) @ [ M.QClose f ] in
+    let qevs = List.concat (List.init rounds (fun _ ->
+        List.concat (List.mapi (fun i b -> qconn (i + 10) b) bs) @ List.concat (List.mapi (fun i b -> qconn (i + 10) b) probes))) in
+    let stale = int_of_nat (M.q_stale (M.qrun true qevs)) in
     (* split the log per descriptor into connection records at each release *)
     let recs = ref [] and after = ref 0 in
     List.iteri (fun i b ->
         let fd = i + 10 in
-        let cur = Buffer.create 8 in
-        let flush () = if Buffer.length cur > 0 then (recs := (b, Buffer.contents cur) :: !recs; Buffer.clear cur) in
+        let cur = Buffer.create 8 and nrec = ref 0 in
+        (* the records of a descriptor number alternate between the round's connection and the fresh one after the round *)
+        let flush () = if Buffer.length cur > 0 then
+            (recs := ((if i < nprobe && !nrec mod 2 = 1 then "f" else b), Buffer.contents cur) :: !recs; incr nrec; Buffer.clear cur) in
         List.iter (fun (f, c) ->
             if int_of_nat f = fd then
               (let told = Buffer.length cur > 0 && Buffer.nth cur (Buffer.length cur - 1) = 'D' in
@@ -482,8 +510,8 @@ let lifecycle_case (toks : string list) : string =
               (List.init (String.length r) (String.get r)))) !recs in
     let shown = List.sort compare shown in
     ignore width;
-    Printf.sprintf "%s conns=%d logs=%s after_disc=%d fd_delta=%d" mode (List.length shown)
-      (if shown = [] then "-" else String.concat "," shown) !after (List.length st.M.peers)
+    Printf.sprintf "%s conns=%d logs=%s after_disc=%d fd_delta=%d stale=%d" mode (List.length shown)
+      (if shown = [] then "-" else String.concat "," shown) !after (List.length st.M.peers) stale
   | _ -> "BADCASE"
 
 (* ---------------- client request/response matching (C15) ---------------- *)
@@ -492,12 +520,24 @@ let lifecycle_case (toks : string list) : string =
    model decides what each event does.  Times in ms. *)
 let client_case (toks : string list) : string =
   match toks with
+  | [ "L"; _threads; _rounds ] ->
+    (* the adversarial interleaving of every round (B finds the connection busy, A completes and finds the queue empty, B is
+       queued), then B's second look; C15_no_request_left_queued_beside_an_idle_connection covers all the others *)
+    let s = M.hrun true (nat_of_int 1) [ M.HPickOk; M.HPickFail; M.HRelease; M.HProcess; M.HEnqueue; M.HProcess ] in
+    Printf.sprintf "L stuck=%d wrong=0" (if M.h_stuck s then 1 else 0)
+  | "K" :: _ :: _ :: _ :: w1 :: w2 :: _ when (let has_t w = List.exists (fun x -> x <> "" && x.[0] = 'T') (String.split_on_char ',' w) in has_t w1 || has_t w2) ->
+    "UNSUPPORTED-BY-MODEL (response and time-out race: either outcome is allowed for that request)"
   | "K" :: _threads :: m :: timeout :: w1 :: w2 :: rest ->
     let m = int_of_string m and timeout = int_of_string timeout in
     let beh w = if w = "-" then [] else List.filter (fun x -> x <> "") (String.split_on_char ',' w) in
     let w1 = beh w1 and w2 = beh w2 in
     let gap = match rest with [ g ] -> int_of_string g | _ -> timeout + 100 in
-    let behs = Array.of_list (w1 @ w2) in
+    (* <behaviour>@<ms>: the request's own time-out *)
+    let split_at x = match String.index_opt x '@' with
+      | Some i -> (String.sub x 0 i, int_of_string (String.sub x (i + 1) (String.length x - i - 1)))
+      | None -> (x, timeout) in
+    let own = Array.of_list (List.map (fun x -> snd (split_at x)) (w1 @ w2)) in
+    let behs = Array.of_list (List.map (fun x -> fst (split_at x)) (w1 @ w2)) in
     let n = Array.length behs in
     let sigma = ref M.kinit in
     let gen = Array.make (m + 1) 0 in
@@ -520,7 +560,7 @@ let client_case (toks : string list) : string =
           let r = int_of_nat r in
           if r < n && not started.(r) then begin
             started.(r) <- true;
-            if timeout > 0 then push (now + timeout) (`Tmo (c, r));
+            if own.(r) > 0 then push (now + own.(r)) (`Tmo (c, r));
             (match behs.(r) with
              | "a" -> push (now + 1) (`Resp (c, gen.(c), false))
              | "d" -> push (now + 60) (`Resp (c, gen.(c), false))
@@ -529,6 +569,7 @@ let client_case (toks : string list) : string =
              | "e" -> push (now + 250) (`Resp (c, gen.(c), false))
              | "g" -> push (now + timeout * 7 / 10) (`Resp (c, gen.(c), false))
              | "x" -> push (now + 1) (`Resp (c, gen.(c), true))
+             | "X" -> push (now + 1) (`Close (c, gen.(c)))
              | "l" -> push (now + timeout + 300) (`Resp (c, gen.(c), false))
              | _ -> ())
           end
@@ -550,6 +591,7 @@ let client_case (toks : string list) : string =
              (* the hand-over may already have put a queued request on the connection: it is lost with it *)
              gen.(c) <- gen.(c) + 1; step (M.KServerClose (nat_of_int c)) end
          end
+       | `Close (c, g) -> if g = gen.(c) then begin gen.(c) <- gen.(c) + 1; step (M.KServerClose (nat_of_int c)) end
        | `Tmo (c, r) ->
          (match inflight c with
           | Some r' when int_of_nat r' = r -> gen.(c) <- gen.(c) + 1; step (M.KTimeout (nat_of_int c))
@@ -693,13 +735,23 @@ let wire_case (toks : string list) : string =
     let cs = if chunks = "-" then [] else List.map bytes_of_hex (String.split_on_char ',' chunks) in
     let hs = [ (bytes_of_string "Connection", bytes_of_string "Keep-Alive") ] in
     "T " ^ hex_of_string (canon_wire (str_of_bytes (M.render_stream (n_of_int (int_of_string code)) hs [] cs)))
-  | [ "Q"; m; path; query; cookies; body ] ->
+  | "Q" :: m :: path :: query :: cookies :: body :: rest ->
+    (* typed headers set through the builder: h=<name hex>:<value hex>,...  (values in the form their writer prints) *)
+    let hs = match rest with
+      | [ h ] when String.length h > 2 ->
+        List.map (fun x -> match String.split_on_char ':' x with
+            | [ n; v ] -> (bytes_of_hex n, bytes_of_hex v) | _ -> ([], []))
+          (String.split_on_char ',' (String.sub h 2 (String.length h - 2)))
+      | _ -> [] in
     let qs = kv_pairs query in
     let qstr = match qs with
       | [] -> []
       | _ -> List.concat (List.mapi (fun i (k, v) -> (ascii_of_int (if i = 0 then 63 else 38)) :: k @ (ascii_of_int 61 :: v)) qs) in
-    let b = M.write_request (bytes_of_string method_str.(int_of_string m)) (bytes_of_string "HOST") (bytes_of_hex path) qstr (kv_pairs cookies) [] (bytes_of_hex body) in
+    let b = M.write_request (bytes_of_string method_str.(int_of_string m)) (bytes_of_string "HOST") (bytes_of_hex path) qstr (kv_pairs cookies) hs (bytes_of_hex body) in
     let txt = str_of_bytes b in
+    (* WireModel.write_request always adds the framework's User-Agent line; the serialiser omits it when the builder set one *)
+    let txt = if List.exists (fun (n, _) -> String.lowercase_ascii (str_of_bytes n) = "user-agent") hs
+      then Str.global_replace (Str.regexp_string "User-Agent: pistache/0.1\r\n") "" txt else txt in
     let txt = Str.global_replace (Str.regexp "Host: HOST") "Host: HOST" txt in
     "Q " ^ hex_of_string (canon_wire txt)
   | _ -> "BADCASE"
